@@ -690,7 +690,7 @@ pub fn check(case: &Case, obs: &mut Obs) {
 const PART: PartCfg = PartCfg {
     name: "sampled",
     genome_len: 100,
-    cases_quick: 4000,
+    cases_quick: 8000,
     cases_thorough: 400_000,
     panic: PanicPolicy::Count,
 };
